@@ -4,6 +4,7 @@
 mod channel;
 mod halflock;
 mod iterator;
+mod probe;
 mod registry;
 mod sched;
 mod trace;
@@ -83,6 +84,11 @@ fn main() {
         "channel" => channel::main(&args),
         "registry" => registry::main(&args),
         "iterator" => iterator::main(&args),
+        "probe" => {
+            let which = argv.get(2).cloned().unwrap_or_default();
+            let a = Args::parse(&argv[3.min(argv.len())..]);
+            probe::main(&a, &which)
+        }
         other => {
             eprintln!("unknown component {}", other);
             2
